@@ -30,7 +30,8 @@
                     null or a string (un-indexable values are the driver's `!Cls` mechanism, see Main.lean);
     * type "claim" / "release": "nameplate" present and not a string (assert / `assert nameplate_id is not None`);
     * type "open" / "close":    "mailbox" present and not a string;
-    * type "add":   "phase" or "body" present and not null / string / integer;
+    * type "add":   "phase" or "body" present and not null / string / integer; or "phase", "body" or "id" an
+                    integer outside the signed 64-bit range (sqlite3 cannot bind it: finding K-int64-overflow);
     * type "close": "mood" present and not null / string.
   An object WITHOUT a "type" key is always in the domain (`Cmd.noType`; nothing else is looked at).
   The restriction is on the SHAPE of the object only (it does not depend on the connection's state), so it
@@ -131,6 +132,18 @@ def mtypeOf : JVal → MType
     else if s = "close" then .close else .unknown
   | _ => .unknown
 
+/-- the key is absent or its value satisfies `p` -/
+def absentOr (p : JVal → Bool) : Option JVal → Bool
+  | none => true
+  | some v => p v
+
+/-- an integer that SQLite can bind (a signed 64-bit integer); every other value passes.  sqlite3 raises
+    `OverflowError` for a Python int outside this range (finding K-int64-overflow), so an `add` carrying such
+    a number in a stored field is outside the model's domain. -/
+def JVal.fitsInt64 : JVal → Bool
+  | .num i => decide (-9223372036854775808 ≤ i ∧ i ≤ 9223372036854775807)
+  | _ => true
+
 /-- the decoder as a function of the look-ups `get k` = `msg.get(k)` (with "absent" = `none`) -/
 def decodeOf (get : String → Option JVal) (pick : Nat) (draws : List Nat) (fresh : String) : Option Cmd :=
   match get "type" with
@@ -151,9 +164,13 @@ def decodeOf (get : String → Option JVal) (pick : Nat) (draws : List Nat) (fre
       | .release => (fieldStr (get "nameplate")).map .release
       | .open_ => (fieldStr (get "mailbox")).map .open_
       | .add =>
-        match fieldVal (get "phase"), fieldVal (get "body") with
-        | some ph, some bd => some (.add ph bd)
-        | _, _ => none
+        -- the three scalars an `add` stores (`phase`, `body`, `msg_id`) must be bindable by SQLite
+        if absentOr JVal.fitsInt64 (get "phase") && absentOr JVal.fitsInt64 (get "body") &&
+            absentOr JVal.fitsInt64 (get "id") then
+          match fieldVal (get "phase"), fieldVal (get "body") with
+          | some ph, some bd => some (.add ph bd)
+          | _, _ => none
+        else none
       | .close =>
         match fieldStr (get "mailbox"), fieldMood (get "mood") with
         | some m, some mood => some (.close m mood)
@@ -207,11 +224,6 @@ def JVal.isCv : JVal → Bool
   | .pair a b => a.isStrOrNull && b.isStrOrNull
   | _ => false
 
-/-- the key is absent or its value satisfies `p` -/
-def absentOr (p : JVal → Bool) : Option JVal → Bool
-  | none => true
-  | some v => p v
-
 /-- the objects `decodeCmd` accepts (`decodeCmd_isSome_iff`) -/
 def InDomain (o : JObj) : Prop :=
   match jget o "type" with
@@ -225,7 +237,9 @@ def InDomain (o : JObj) : Prop :=
       | .claim => absentOr JVal.isStr (jget o "nameplate") = true
       | .release => absentOr JVal.isStr (jget o "nameplate") = true
       | .open_ => absentOr JVal.isStr (jget o "mailbox") = true
-      | .add => absentOr JVal.isScalar (jget o "phase") = true ∧ absentOr JVal.isScalar (jget o "body") = true
+      | .add => absentOr JVal.isScalar (jget o "phase") = true ∧ absentOr JVal.isScalar (jget o "body") = true ∧
+          absentOr JVal.fitsInt64 (jget o "phase") = true ∧ absentOr JVal.fitsInt64 (jget o "body") = true ∧
+          absentOr JVal.fitsInt64 (jget o "id") = true
       | .close => absentOr JVal.isStr (jget o "mailbox") = true ∧ absentOr JVal.isStrOrNull (jget o "mood") = true
       | _ => True
 
